@@ -371,7 +371,7 @@ func TestC11(t *testing.T) {
 	r.Rule = "case = one (test target, incremental `plz test` invocation) pair in a generated edit history, compared with a fresh run of the same tree at the same path; distinct by (repository files, caller environment, operations of the step, target); non-trivial = since the target's previous invocation one of its runtime inputs was edited (flip/refresh/rename/list change/command/env), plz-out was wiped, the state was reverted, or its previous outcome was a failure"
 	r.Assumes = []string{"generated test commands are deterministic functions of their declared runtime inputs", "a fresh run (same absolute path, empty plz-out, cache disabled) is the reference outcome", "whether a test command executed is observed by a mkdir marker baked into the command", "plz-out/log/test_results.xml is the per-target pass/fail/cached report"}
 	bin := lib.PlzBin(false)
-	n := r.Pick(20, 600)
+	n := r.Pick(20, 200)
 	steps := 4 // edit steps after the initial invocation
 	var minimised sync.Map
 	r.ForEach("history", n, 8, func(i int, rng *rand.Rand) {
@@ -556,8 +556,18 @@ func TestC11(t *testing.T) {
 							key = fmt.Sprintf("executed-but-outcome-differs/%s/inc-pass=%v", tt.Kind, inc.Pass[l])
 							what = fmt.Sprintf("%s (%s): executed in the incremental run with pass=%v, fresh run pass=%v", l, tt.Kind, inc.Pass[l], fr.Pass[l])
 						}
-						if _, done := minimised.LoadOrStore(key, true); prevFiles != nil && rep == 0 && !done {
-							w["minimal"] = minimise(r, bin, sb, i, prevFiles, prevEnv, files, env, l, wiped, fr.Pass[l])
+						if prevFiles != nil && rep == 0 {
+							// one two-step reproduction per witness key, shared by every history that hits the key
+							e, _ := minimised.LoadOrStore(key, &minEntry{})
+							me := e.(*minEntry)
+							me.mu.Lock()
+							if rep, _ := me.res["reproduced"].(bool); !rep && me.tries < 3 {
+								me.tries++
+								me.res = minimise(r, bin, sb, i, prevFiles, prevEnv, files, env, l, wiped, fr.Pass[l])
+								me.res["from_history"] = i
+							}
+							w["minimal"] = me.res
+							me.mu.Unlock()
 						}
 						r.Violation(key, what, w, i)
 					} else {
@@ -603,6 +613,12 @@ func TestC11(t *testing.T) {
 	})
 	r.RequireObserved("incremental_invocations", "fresh_runs", "executed_tests", "cached_reports", "reused_pass_confirmed_by_fresh_run",
 		"reruns_after_input_change", "previously_failing_reexecuted", "failing_outcomes_agreeing", "outcome_flips_tracked")
+}
+
+type minEntry struct {
+	mu    sync.Mutex
+	tries int
+	res   map[string]any
 }
 
 func allPass(s *state) bool {
